@@ -462,6 +462,10 @@ func v1AckBytes(a []string, canon bool) []byte {
 		bz = ibcmock.MockAcknowledgement.Acknowledgement()
 	case len(a) == 1 && a[0] == "err":
 		bz = ibcmock.MockFailAcknowledgement.Acknowledgement()
+	case len(a) == 1 && a[0] == "hashok":
+		return sh(ibcmock.MockAcknowledgement.Acknowledgement())
+	case len(a) == 1 && a[0] == "hasherr":
+		return sh(ibcmock.MockFailAcknowledgement.Acknowledgement())
 	default:
 		bz = channeltypes.NewResultAcknowledgement([]byte(fmt.Sprint("verif-ack-", a))).Acknowledgement()
 	}
